@@ -87,9 +87,10 @@ CFG = {
                        (1, Knobs(envelope="alap", sub_slot=0.9, max_res=2, p_milestone=0.2)),
                        # teams of one common efficiency (the hypothesis of C06.team_framed), sub-slot bounds and efforts
                        (1, Knobs(envelope="asap", sub_slot=0.9, max_res=3, p_team=0.7, p_eff=0.0, p_alt=0.0, p_dep=0.6, p_gap=0.5,
-                                 p_leave=0.4, aligned_only=False))],
+                                 p_leave=0.4, aligned_only=False)),
+                       (1, Knobs(envelope="alap", sub_slot=0.9, max_res=3, p_team=0.7, p_eff=0.0, p_alt=0.0, p_leave=0.4))],
                 nontrivial=shared_slots,
-                rule="ASAP and ALAP envelope projects with sub-slot efforts and gaps (one stream with teams of one common efficiency); oracle: bookings inside [start, end], first/last booked "
+                rule="ASAP and ALAP envelope projects with sub-slot efforts and gaps (two streams with teams of one common efficiency); oracle: bookings inside [start, end], first/last booked "
                      "slot contain start/end, interval long enough for the work of those slots, milestones at their bound"),
     "C08": dict(files=["Properties/C08.lean"], oracles=("C08",),
                 knobs=[(2, Knobs(envelope="asap", p_limits=0.05, p_tasklimits=0.0, p_wh=0.5, p_leave=0.5, p_tz=0.3)),
